@@ -142,6 +142,24 @@ def judge_pair(rec, a, b, full=True, derived=True, case=None):
                               case=case)
 
 
+def _other_prefix(p):
+    from hdl21.prefix import Prefix
+
+    return Prefix.MEGA if p is not Prefix.MEGA else Prefix.MILLI
+
+
+def _assigned(x, field, value):
+    """A copy of `x` that is used (hashed, converted) and has `field` assigned afterwards."""
+    y = x.model_copy()
+    for use in (hash, float, lambda v: v == v):
+        try:
+            use(y)
+        except Exception:
+            pass
+    setattr(y, field, value)
+    return y
+
+
 def used_before(rec, a, light=False):
     """An operand that has been USED (hashed, converted, compared, named) before it enters an operation: every result must be
     indistinguishable from the same value built afresh - by ==, hash, int(), float() and the order relations."""
@@ -156,7 +174,12 @@ def used_before(rec, a, light=False):
     da = mpref._desc(a)
     for name, f in (("neg", lambda x: -x), ("abs", abs), ("scale", lambda x: x.scale()), ("plus-zero", lambda x: x + 0), ("times-one", lambda x: x * 1),
                     ("double-neg", lambda x: -(-x)), ("copy", _copy.copy), ("deepcopy", _copy.deepcopy), ("model_copy", lambda x: x.model_copy()),
-                    ("minus-self", lambda x: x - x), ("times-minus-one", lambda x: x * -1)):
+                    ("minus-self", lambda x: x - x), ("times-minus-one", lambda x: x * -1),
+                    # fields of a (used) copy edited, by update and by assignment: the value is the one of the new fields
+                    ("copy-with-other-prefix", lambda x: x.model_copy(update=dict(prefix=_other_prefix(x.prefix)))),
+                    ("copy-with-other-number", lambda x: x.model_copy(update=dict(number=x.number + 1))),
+                    ("assign-prefix", lambda x: _assigned(x, "prefix", _other_prefix(x.prefix))),
+                    ("assign-number", lambda x: _assigned(x, "number", x.number * 2 + 1))):
         case = {"kind": "used", "a": mpref.case_of(a), "op": name}
         ok, r = call(rec, f"arith-raises:{name}", f"{name}({da}) after use", case, lambda f=f: f(a))
         if not ok or not isinstance(r, _P):
@@ -194,9 +217,10 @@ def argument_probes(rec):
             "from hv import env; env.bootstrap()\n"
             "from decimal import Decimal; from hdl21.prefix import Prefixed, Prefix\n"
             "K = Prefix.KILO; x = Prefixed(number=Decimal(1), prefix=K); out = []\n"
+            "long_ = Prefixed(number=Decimal('1.234567890123456789012345'), prefix=Prefix.UNIT)\n"
             "for text in ('1E+999999999999999', '-3E+99999999999', '1E+400000000'):\n"
             "    big = Prefixed(number=Decimal(text), prefix=K); same = Prefixed(number=Decimal(text), prefix=K)\n"
-            "    for name, f, want in (('==', lambda: big == same, True), ('<', lambda: big < x, text[0] == '-'), ('>=', lambda: x >= big, text[0] == '-'), ('!=', lambda: big != x, True)):\n"
+            "    for name, f, want in (('==', lambda: big == same, True), ('<', lambda: big < x, text[0] == '-'), ('>=', lambda: x >= big, text[0] == '-'), ('!=', lambda: big != x, True), ('<long', lambda: big < long_, text[0] == '-'), ('long<=', lambda: long_ <= big, text[0] != '-')):\n"
             "        try:\n"
             "            r = f(); out.append((text, name, 'ok' if bool(r) == want else 'wrong:%%r' %% (r,)))\n"
             "        except BaseException as e:\n"
